@@ -93,6 +93,13 @@ func c14Build(cfg c14Cfg, customize bool) *c14World {
 		x.parents[id] = x.Sim.Get(pk, x.pns(id), name)
 	}
 	mk("p1", "p1", "x", false)
+	// p6: a selector made of a negative requirement only - it selects exactly the children WITHOUT the label c,
+	// among them children without any label at all
+	mk("p6", "p6", "x", false)
+	x.Sim.Edit(pk, x.pns("p6"), "p6", func(o map[string]interface{}) {
+		kit.Field(o, map[string]interface{}{"matchExpressions": []interface{}{map[string]interface{}{"key": "c", "operator": "DoesNotExist"}}}, "spec", "selector")
+	})
+	x.parents["p6"] = x.Sim.Get(pk, x.pns("p6"), "p6")
 	mk("p2", "p2", "y", false)
 	mk("p3", "p3", "y", true)
 	// p5: does not match, carries our finalizer, and is being deleted in the foreground (garbage-collector finalizer)
@@ -151,7 +158,7 @@ func c14Events(cfg c14Cfg) []string {
 		}
 	}
 	ev = append(ev, "parent-resync")
-	for _, role := range []string{"owned-p1", "owned-p2", "owned-p3", "wrong-uid", "wrong-kind", "wrong-group", "foreign-owned", "orphan-match", "orphan-nomatch", "orphan-deleting", "owned-p1-other-ns", "owned-p1-deleting", "owned-p1-other-version"} {
+	for _, role := range []string{"owned-p1", "owned-p2", "owned-p3", "wrong-uid", "wrong-kind", "wrong-group", "foreign-owned", "orphan-match", "orphan-nomatch", "orphan-unlabelled", "orphan-deleting", "owned-p1-other-ns", "owned-p1-deleting", "owned-p1-other-version"} {
 		for _, e := range []string{"add", "update", "delete", "tombstone", "resync"} {
 			ev = append(ev, "child:"+role+":"+e)
 		}
@@ -317,6 +324,11 @@ func c14Run(c c14Case) []mc.Finding {
 				wake = "p1"
 			case "orphan-nomatch":
 				selLabel(o, "9")
+			case "orphan-unlabelled":
+				// no metadata.labels at all: selected by p6's negative selector (not by a generated one)
+				if !c.Cfg.GenSel {
+					wake = "p6"
+				}
 			case "orphan-deleting":
 				selLabel(o, "1")
 				kit.Deleting(kit.Finalizers(o, "ex.io/hold"))
